@@ -117,7 +117,7 @@ impl Backend {
 
     /// Convert LSP position (0-based line) to internal representation (1-based line)
     pub fn lsp_line_to_internal(line: u32) -> usize {
-        (line + 1) as usize
+        line as usize + 1
     }
 
     /// Convert internal line (1-based) to LSP position (0-based)
